@@ -44,3 +44,208 @@ LEAVES += [
           {'rdm_vec': 'A', 'norm': 'A'}),
     _leaf('poolingCorrCovShift', _PO, 13, _M, {_MIN: 'vmin'}, {'rdm_vec': 'A', 'vmin': 'A'}),
 ]
+
+
+# ---------------------------------------------------------------------------------------------
+# round 3: leaves *derived* from array / control-flow text (outside py2lean's scalar subset).  As in
+# leaves/C18.py the current source (Python `ast`) is first rewritten into tiny scalar functions in
+# harness/leaves/_C07_derived.py (rewritten on every run, nothing cached); py2lean translates those.
+# Every derivation fails closed: an unexpected shape gives a body calling `__underivable__`, which
+# py2lean reports as an untranslatable leaf = broken obligation.
+#
+#   nonzero_guard / pooling_nonzero_guard   `_nonzero`: `return np.where(norm == 0, 1, norm)`
+#       -> `(1 if norm <= 0 else norm)`.  The argument is always a norm (sqrt / nanstd output, >= 0), so
+#       `== 0` is `<= 0` (py2lean refuses `==` on reals); any other test (`np.isclose`, a threshold)
+#       is passed through as written or is underivable.
+#   norm_kind / has_shift (+ pooling_*)     the if/elif dispatch of `pool_rdm` on the method name: for the six
+#       modelled methods (codes 0..5 = cosine, corr, rho-a, spearman, cosine_cov, corr_cov) which
+#       normaliser the first matching branch applies (0 plain mean, 1 / RMS, 2 mean removal + / std,
+#       3 ranks, 4 / whitened norm, 5 mean removal + / whitened norm) and whether the minimum is subtracted
+#       afterwards (the "min-shift condition")
+#   boot_loop_len / cv_loop_len             `for i in range(len(ceil_set))` -> number of folds visited
+#   boot_defaults / cv_defaults             default `method` / descriptor arguments (codes)
+import ast
+import os
+
+SRC = os.environ.get('RSA_REPO_SRC', '/repo/src/rsatoolbox')
+HERE = os.path.dirname(os.path.abspath(__file__))
+DERIVED = os.path.join(HERE, '_C07_derived.py')
+METHOD_CODES = ['cosine', 'corr', 'rho-a', 'spearman', 'cosine_cov', 'corr_cov']
+
+
+class Underivable(Exception):
+    pass
+
+
+def _func(path, name):
+    tree = ast.parse(open(os.path.join(SRC, path)).read())
+    for node in tree.body:
+        if isinstance(node, ast.FunctionDef) and node.name == name:
+            return node
+    raise Underivable(f'{path}: function {name} not found')
+
+
+def _nonzero_body(path):
+    fn = _func(path, '_nonzero')
+    body = [n for n in fn.body if not (isinstance(n, ast.Expr) and isinstance(n.value, ast.Constant))]
+    if len(body) != 1 or not isinstance(body[0], ast.Return):
+        raise Underivable('_nonzero is not a single return statement')
+    call = body[0].value
+    if not (isinstance(call, ast.Call) and ast.unparse(call.func) == 'np.where' and len(call.args) == 3):
+        raise Underivable(f'_nonzero does not return np.where(test, a, b): `{ast.unparse(call)}`')
+    test, a, b = call.args
+    if not (isinstance(test, ast.Compare) and len(test.ops) == 1 and ast.unparse(test.left) == 'norm'):
+        raise Underivable(f'guard `{ast.unparse(test)}` is not a comparison on norm')
+    if isinstance(test.ops[0], ast.Eq):
+        if ast.unparse(test.comparators[0]) != '0':
+            raise Underivable(f'guard `{ast.unparse(test)}`: equality with a non-zero constant')
+        ttxt = 'norm <= 0'       # norms are >= 0
+    else:
+        ttxt = ast.unparse(test)
+    return f'({ast.unparse(a)} if {ttxt} else {ast.unparse(b)})'
+
+
+_T_RMS = 'rdm_vec / ' + _RMS
+_T_MEAN = '_nan_mean(rdm_vec)'
+_T_CENTER = 'rdm_vec - ' + _MEAN
+_T_STD = 'rdm_vec / ' + _STD
+_T_MIN = ('rdm_vec - ' + _MIN, 'rdm_vec - ' + _MIN + ' + 0.01')
+_T_RANK = 'np.array([_nan_rank_data(v) for v in rdm_vec])'
+_T_WNORM = 'rdm_vec / _nonzero(np.sqrt(rdm_norms))'
+
+
+def _branch_for(fn, method):
+    """body of the first branch of the if/elif chain on `method` that the given name takes"""
+    chain = [n for n in fn.body if isinstance(n, ast.If) and 'method' in ast.unparse(n.test)]
+    if len(chain) != 1:
+        raise Underivable('expected one if/elif chain on `method`')
+    node = chain[0]
+    while True:
+        t = node.test
+        if not (isinstance(t, ast.Compare) and len(t.ops) == 1 and ast.unparse(t.left) == 'method'):
+            raise Underivable(f'test `{ast.unparse(t)}` is not a comparison on method')
+        rhs = ast.literal_eval(t.comparators[0])
+        if isinstance(t.ops[0], ast.Eq):
+            hit = method == rhs
+        elif isinstance(t.ops[0], ast.In):
+            hit = method in rhs
+        else:
+            raise Underivable(f'test `{ast.unparse(t)}`')
+        if hit:
+            return node.body
+        if len(node.orelse) == 1 and isinstance(node.orelse[0], ast.If):
+            node = node.orelse[0]
+        else:
+            raise Underivable(f'no branch for method {method!r}')
+
+
+def _classify(body):
+    """(normaliser kind, shift flag) of one branch: the right-hand sides assigned to rdm_vec, in order"""
+    rhs = [ast.unparse(n.value) for n in body if isinstance(n, ast.Assign)
+           and ast.unparse(n.targets[0]) == 'rdm_vec']
+    others = [n for n in body if not (isinstance(n, ast.Assign) and ast.unparse(n.targets[0]) == 'rdm_vec')]
+    shift = 0
+    if rhs and rhs[-1] in _T_MIN:
+        shift, rhs = 1, rhs[:-1]
+    if not rhs or rhs[-1] != _T_MEAN:
+        raise Underivable(f'branch does not end with _nan_mean: {rhs}')
+    pre = rhs[:-1]
+    if others and not (pre and pre[-1] == _T_WNORM):
+        # only the whitened branches of util/pooling.py carry helper assignments (v, ok_idx, ...)
+        if not all(isinstance(n, ast.Expr) for n in others):
+            raise Underivable('unexpected statements in a plain branch')
+    kind = {(): 0, (_T_RMS,): 1, (_T_CENTER, _T_STD): 2, (_T_RANK,): 3,
+            (_T_WNORM,): 4, (_T_CENTER, _T_WNORM): 5}.get(tuple(pre))
+    if kind is None:
+        raise Underivable(f'unknown normalisation steps {pre}')
+    return kind, shift
+
+
+def _dispatch(path, which):
+    fn = _func(path, 'pool_rdm')
+    vals = [_classify(_branch_for(fn, m))[which] for m in METHOD_CODES]
+    out = str(9 if which == 0 else 0)
+    for code in reversed(range(len(vals))):
+        out = f'({vals[code]} if m == {code} else {out})'
+    return out
+
+
+def _loop_len(name):
+    fn = _func('inference/noise_ceiling.py', name)
+    loops = [n for n in fn.body if isinstance(n, ast.For)]
+    if len(loops) != 1:
+        raise Underivable(f'{name}: expected one for loop')
+    it = loops[0].iter
+    if not (isinstance(it, ast.Call) and ast.unparse(it.func) == 'range' and len(it.args) == 1):
+        raise Underivable(f'{name}: loop is not `for i in range(n)`: `{ast.unparse(it)}`')
+    txt = ast.unparse(it.args[0]).replace('len(ceil_set)', 'len_ceil_set')
+    if 'len(' in txt or 'test_set' in txt:
+        raise Underivable(f'{name}: loop bound `{txt}` is not a function of len(ceil_set)')
+    # the loop indexes ceil_set[i] and test_set[i]
+    idx = {ast.unparse(n.value) for n in ast.walk(loops[0]) if isinstance(n, ast.Assign)
+           and ast.unparse(n.targets[0]) in ('train', 'test')}
+    if idx != {'ceil_set[i]', 'test_set[i]'}:
+        raise Underivable(f'{name}: loop does not read ceil_set[i] / test_set[i]: {sorted(idx)}')
+    return txt
+
+
+def _defaults(name, descriptor_arg):
+    fn = _func('inference/noise_ceiling.py', name)
+    args = [a.arg for a in fn.args.args]
+    defs = dict(zip(args[len(args) - len(fn.args.defaults):], fn.args.defaults))
+    if 'method' not in defs or descriptor_arg not in defs:
+        raise Underivable(f'{name}: no default for method / {descriptor_arg}')
+    m = ast.literal_eval(defs['method'])
+    d = ast.literal_eval(defs[descriptor_arg])
+    code = (METHOD_CODES.index(m) if m in METHOD_CODES else 8) * 10 + (1 if d == 'index' else 0)
+    return str(code)
+
+
+def _derive():
+    out = ['# DERIVED by harness/leaves/C07.py from the source tree under check - do not edit', '']
+
+    def emit(fname, params, body_fn):
+        try:
+            body = body_fn()
+        except Exception as exc:  # noqa: BLE001  (fail closed)
+            body = '__underivable__(' + repr(str(exc)) + ')'
+        out.append(f'def {fname}({", ".join(params)}):')
+        out.append(f'    return {body}')
+        out.append('')
+
+    emit('nonzero_guard', ['norm'], lambda: _nonzero_body(_IU))
+    emit('pooling_nonzero_guard', ['norm'], lambda: _nonzero_body(_PO))
+    emit('norm_kind', ['m'], lambda: _dispatch(_IU, 0))
+    emit('has_shift', ['m'], lambda: _dispatch(_IU, 1))
+    emit('pooling_norm_kind', ['m'], lambda: _dispatch(_PO, 0))
+    emit('pooling_has_shift', ['m'], lambda: _dispatch(_PO, 1))
+    emit('boot_loop_len', ['len_ceil_set'], lambda: _loop_len('boot_noise_ceiling'))
+    emit('cv_loop_len', ['len_ceil_set'], lambda: _loop_len('cv_noise_ceiling'))
+    emit('boot_defaults', [], lambda: _defaults('boot_noise_ceiling', 'rdm_descriptor'))
+    emit('cv_defaults', [], lambda: _defaults('cv_noise_ceiling', 'pattern_descriptor'))
+    text = '\n'.join(out)
+    if not (os.path.exists(DERIVED) and open(DERIVED).read() == text):
+        with open(DERIVED + '.tmp', 'w') as f:
+            f.write(text)
+        os.replace(DERIVED + '.tmp', DERIVED)
+
+
+_derive()
+
+LEAVES += [
+    dict(name='nonzeroGuard', file=DERIVED, func='nonzero_guard', kind='func', params={'norm': 'A'}, ret='A'),
+    dict(name='poolingNonzeroGuard', file=DERIVED, func='pooling_nonzero_guard', kind='func',
+         params={'norm': 'A'}, ret='A'),
+    dict(name='normKind', file=DERIVED, func='norm_kind', kind='func', params={'m': 'Nat'}, ret='Nat'),
+    dict(name='hasShift', file=DERIVED, func='has_shift', kind='func', params={'m': 'Nat'}, ret='Nat'),
+    dict(name='poolingNormKind', file=DERIVED, func='pooling_norm_kind', kind='func', params={'m': 'Nat'},
+         ret='Nat'),
+    dict(name='poolingHasShift', file=DERIVED, func='pooling_has_shift', kind='func', params={'m': 'Nat'},
+         ret='Nat'),
+    dict(name='bootLoopLen', file=DERIVED, func='boot_loop_len', kind='func',
+         params={'len_ceil_set': 'Nat'}, ret='Nat'),
+    dict(name='cvLoopLen', file=DERIVED, func='cv_loop_len', kind='func',
+         params={'len_ceil_set': 'Nat'}, ret='Nat'),
+    dict(name='bootDefaults', file=DERIVED, func='boot_defaults', kind='func', params={}, ret='Nat'),
+    dict(name='cvDefaults', file=DERIVED, func='cv_defaults', kind='func', params={}, ret='Nat'),
+]
